@@ -326,24 +326,27 @@ def writeback_locality(ctx):
     for name in ('apply', 'set'):
         fi = sl.methods[name]
         ff = ctx.flow(fi.qualname)
-        sets = [(c, s, b) for c, s, b in ff.calls if isinstance(c.func, ast.Attribute) and c.func.attr == '__setitem__']
-        for st in ff.stores:
-            pass
-        for c, s, b in sets:
+        sets = [(c.args[0], c.args[1], c.func.value, s, b) for c, s, b in ff.calls
+                if isinstance(c.func, ast.Attribute) and c.func.attr == '__setitem__' and len(c.args) == 2]
+        for stmt, target, skey, value, before, rt in ff.stores:
+            # index syntax: self.array[key] = value
+            if isinstance(rt, ast.Subscript) and path_from_param(rt.value) == ('self', ['array']):
+                sets.append((rt.slice, value, rt.value, stmt, before))
+        for key, val, recv, s, b in sets:
             nwrites += 1
-            key, val = c.args[0], c.args[1]
-            recv = c.func.value
             ok_recv = path_from_param(recv) == ('self', ['array'])
             kk = strip_refs(key)
             ok_key = path_from_param(key) == ('self', ['slices']) or \
                 (isinstance(kk, LoopVar) and _iter_is_slices(kk.iter))
             ok_val, vfact = True, ''
             if name == 'apply':
-                reads = [n for n in deep_walk(val) if isinstance(n, ast.Call) and isinstance(n.func, ast.Attribute)
-                         and n.func.attr == '__getitem__']
-                ok_val = bool(reads) and all(same_value(r.args[0], key) or strip_refs(r.args[0]) is kk for r in reads) \
-                    and all(path_from_param(r.func.value) == ('self', ['array']) for r in reads)
-                vfact = f"value = f({', '.join(show(r, 40) for r in reads[:2])})"
+                reads = [(n.args[0], n.func.value) for n in deep_walk(val) if isinstance(n, ast.Call) and
+                         isinstance(n.func, ast.Attribute) and n.func.attr == '__getitem__' and n.args]
+                reads += [(n.slice, n.value) for n in deep_walk(val) if isinstance(n, ast.Subscript) and
+                          path_from_param(n.value) == ('self', ['array'])]
+                ok_val = bool(reads) and all(same_value(r[0], key) or strip_refs(r[0]) is kk for r in reads) \
+                    and all(path_from_param(r[1]) == ('self', ['array']) for r in reads)
+                vfact = f"value = f(self.array[{', '.join(show(r[0], 30) for r in reads[:2])}])"
             else:
                 vv = strip_refs(val)
                 if isinstance(kk, LoopVar):
@@ -360,6 +363,10 @@ def writeback_locality(ctx):
     g = sl.methods['get']
     fg = ctx.flow('Slicer.get')
     reads = [(c, s, b) for c, s, b in fg.calls if isinstance(c.func, ast.Attribute) and c.func.attr == '__getitem__']
+    for ex in fg.normal_exits():
+        for n in deep_walk(ex.value):
+            if isinstance(n, ast.Subscript) and path_from_param(n.value) == ('self', ['array']):
+                reads.append((ast.Call(func=ast.Attribute(value=n.value, attr='__getitem__', ctx=ast.Load()), args=[n.slice], keywords=[]), None, None))
     maps = [(c, s, b) for c, s, b in fg.calls if isinstance(c.func, ast.Name) and c.func.id == 'map']
     ok = all(path_from_param(c.args[0]) == ('self', ['slices']) for c, s, b in reads) and \
         all(len(c.args) == 2 and path_from_param(c.args[1]) == ('self', ['slices']) for c, s, b in maps) and \
@@ -446,6 +453,18 @@ def alias_writeback(ctx):
             shared.append(n_)
     for st in shared:
         roots = [pathkey(t.value) for t in st.targets]
+        # the copy of one plate replaces both: only valid if both slices refer to the very same plate object
+        keys = {pathkey(t) for t in st.targets}
+        same_obj = False
+        for cmp_ in facts_at(fft.state_before(st)):
+            if cmp_.op in ('eq', 'is') and cmp_.right is not None and \
+                    {getattr(cmp_.left, 'pkey', None), getattr(cmp_.right, 'pkey', None)} == keys:
+                same_obj = True
+        ctx.ob('C01.R5', fi, st.lineno, f"{sorted(keys)} are replaced by one copy only when they are the same plate object",
+               same_obj, fact=('guarded by equality / identity of the two plate objects' if same_obj else
+                               'the branch is not guarded by a comparison of the two plate objects themselves'),
+               why='two different plates (e.g. with equal names) are treated as one: the source wells are read from a '
+                   'copy of the destination plate', key='shared plate copy without identity test')
         post = fft.post.get(id(st))
         writes = [(c, s, b) for c, s, b in fft.calls if isinstance(c.func, ast.Attribute) and c.func.attr in ('set', 'apply')
                   and pathkey(c.func.value) in roots and getattr(s, 'lineno', 0) > st.lineno]
